@@ -11,5 +11,6 @@ CONSTANTS
     MaxFields = 2
     Vias = {"direct", "pipe", "http"}
     Witness = TRUE
+    ReqPayloads = {}
 VIEW View
 CHECK_DEADLOCK FALSE
